@@ -64,6 +64,8 @@ def nodes_diff(impl_nodes, model_nodes, exact=False):
 
 
 def cmp_prune(expect, r):
+    if expect["outcome"] == "Timeout":
+        return None
     if expect["outcome"] != r.get("outcome"):
         return f"outcome {expect['outcome']} vs model {r.get('outcome')}"
     if expect["outcome"] != "ok":
@@ -76,6 +78,8 @@ def cmp_prune(expect, r):
 
 
 def cmp_reach(expect, r):
+    if expect["outcome"] == "Timeout":
+        return None
     if expect["outcome"] != r.get("outcome"):
         return f"outcome {expect['outcome']} vs model {r.get('outcome')}"
     if expect["outcome"] != "ok":
@@ -92,7 +96,7 @@ def cmp_solve(expect, r):
     eo = expect["outcome"]
     mo = r.get("outcome")
     if eo == "Timeout":
-        return None if mo == "OutOfFuel" else f"implementation timed out, model says {mo}"
+        return None            # wall-clock dependent: judged by the oracle of C06/C11, never by the correspondence
     if eo != mo:
         return f"outcome {eo} vs model {mo}"
     if eo != "ok":
